@@ -1,23 +1,70 @@
 (* Properties/C15.v — coalescing is repeatable, leaves its inputs intact and isolates events.
-   The functional model cannot mutate anything, so the statements are made on a
-   store-passing reading: messages live in a store together with their cached Data();
-   CoalesceMessages returns an event and the store.  The repaired code (fix commit
-   "CoalesceMessages no longer deletes fields from its input messages") works on copies,
-   hence the identity store; the pinned code's delete() on the cached map would be a
-   store update and would falsify all three statements.  Whether the implementation is
-   this model is decided by the run: snapshots of every input before/after, repeated
-   calls, events of a pool re-compared after later calls, race detector. *)
+   Stated on the heap reading of CoalesceMessages (Model/CoalesceHeap.v): Go maps are cells, Data()
+   hands out the message's cached cell, every statement of coalesce.go that writes into a map is a
+   write to a cell, every make / copyData an allocation, event.Paths holds the PATH messages' own
+   cells.  The theorems say that all writes of a call land in cells the call allocated itself.
+   The pinned tree's newEvent (delete on the map Data() returned) falsifies them
+   (Proofs/CoalesceHeapProofs.v, pinned_variant_changes_its_input); it was repaired.
+   Tie to the source: the event read back from the heap is proved equal to the functional model
+   (ChkCoalesce.model_event) that the correspondence check runs against the implementation on every
+   generated group; the write targets themselves are tied by Gen/CoalesceWrites.v (every map write
+   in coalesce.go, read from the AST, goes to the event or to a copyData result) and by the run:
+   snapshots of every input before/after, repeated calls, events of a pool re-compared after later
+   calls, race detector.  Data races are outside this model. *)
 From Coq Require Import List Ascii String NArith ZArith Bool Arith.
 Import ListNotations.
-Require Import KV Parser ChkCoalesce CoalesceProofs.
+Require Import KV Parser ChkCoalesce CoalesceProofs CoalesceHeap CoalesceHeapProofs CoalesceWrites CoalesceWritesOk.
 
-Theorem C15_inputs_intact : forall st ids, snd (coalesce_st st ids) = st.
-Proof. exact coalesce_inputs_intact. Qed.
-Theorem C15_repeatable : forall st ids, fst (coalesce_st (snd (coalesce_st st ids)) ids) = fst (coalesce_st st ids).
-Proof. exact coalesce_repeatable. Qed.
-Theorem C15_isolated : forall st a b, fst (coalesce_st (snd (coalesce_st st b)) a) = fst (coalesce_st st a).
-Proof. exact coalesce_isolated. Qed.
+(* the heap model computes the functional model's event, changes no cell that existed before the call, and
+   the event's own maps are cells allocated by the call (its Paths: the input messages' cells) *)
+Theorem C15_heap_model_refines : forall h rs, Forall (rec_valid (List.length h)) rs ->
+  let '(h', oe) := coalesce_h h rs in
+  option_map (deref h') oe = model_event (map (to_rec h) rs) /\
+  agree_below (List.length h) h h' /\
+  match oe with Some e => wf_ev (List.length h) h' e | None => h' = h end.
+Proof. exact coalesce_h_refines. Qed.
+(* what every message (input or not) reports afterwards is what it reported before *)
+Theorem C15_inputs_intact : forall h rs, Forall (rec_valid (List.length h)) rs ->
+  forall r, rec_valid (List.length h) r -> to_rec (fst (coalesce_h h rs)) r = to_rec h r.
+Proof. exact coalesce_h_inputs_intact. Qed.
+(* coalescing the same messages again - on the heap left by the first call or by any later calls - yields an equal event *)
+Theorem C15_repeatable : forall h rs h2, Forall (rec_valid (List.length h)) rs -> agree_below (List.length h) h h2 ->
+  let '(ha, ea) := coalesce_h h rs in
+  let '(hb, eb) := coalesce_h h2 rs in
+  option_map (deref hb) eb = option_map (deref ha) ea.
+Proof. exact coalesce_h_repeatable. Qed.
+(* an event returned earlier reads the same after any later call *)
+Theorem C15_isolated : forall h rs e0, Forall (rec_valid (List.length h)) rs -> ev_below (List.length h) e0 ->
+  deref (fst (coalesce_h h rs)) e0 = deref h e0.
+Proof. exact coalesce_h_isolated. Qed.
+(* and after any sequence of later calls *)
+Theorem C15_any_call_sequence : forall calls h, Forall (Forall (rec_valid (List.length h))) calls -> agree_below (List.length h) h (run_calls h calls).
+Proof. exact run_calls_frame. Qed.
 
+(* the premise, read from the source text on this run: every map write in aucoalesce goes to the event, to a map the
+   function made itself or to the receiver's cache; appends to table-shared slices find no spare capacity *)
+Theorem C15_write_targets_owned : coalesce_writes_okb = true.
+Proof. exact coalesce_writes_ok. Qed.
+
+(* non-vacuity: a SYSCALL + PATH + EXECVE group on a heap holding the three cached maps *)
+Example C15_example :
+  let h := [[(L "syscall", L "execve"); (L "items", L "2"); (L "result", L "success"); (L "auid", L "1000")];
+            [(L "name", L "/bin/ls"); (L "mode", L "0100755")];
+            [(L "argc", L "1"); (L "a0", L "ls")]] in
+  let rs := [MkHrec MsgTypes.AUDIT_SYSCALL (Some 0); MkHrec MsgTypes.AUDIT_PATH (Some 1); MkHrec MsgTypes.AUDIT_EXECVE (Some 2)] in
+  Forall (rec_valid (List.length h)) rs /\
+  (let '(h', oe) := coalesce_h h rs in
+   firstn 3 h' = h /\ option_map (fun e => (he_paths e, he_args e, hread h' (he_data e))) oe
+                      = Some ([1], Some [L "ls"], [(L "argc", L "1"); (L "syscall", L "execve")])).
+Proof.
+  split.
+  - repeat (apply Forall_cons; [intros l Hl; cbn in Hl; injection Hl as <-; cbn; auto|]). apply Forall_nil.
+  - vm_compute. split; reflexivity.
+Qed.
+
+Print Assumptions C15_write_targets_owned.
+Print Assumptions C15_heap_model_refines.
 Print Assumptions C15_inputs_intact.
 Print Assumptions C15_repeatable.
 Print Assumptions C15_isolated.
+Print Assumptions C15_any_call_sequence.
